@@ -771,7 +771,11 @@ class TensorDiagram:
             s = slice(offset, self._node_positions[i + 1] if i + 1 < len(self._node_positions) else None)
             args.append(indices[s])
 
-        result = np.einsum(*args, result_indices[0] + result_indices[1] + result_indices[2])  # type: ignore[arg-type]
+        # small integer types (the Levi-Civita tensors are stored as int8) would overflow in the sums of products
+        dtype = np.result_type(*(node.array for node in self._nodes))
+        if np.issubdtype(dtype, np.integer) and dtype.itemsize < np.dtype(int).itemsize:
+            dtype = np.dtype(int)
+        result = np.einsum(*args, result_indices[0] + result_indices[1] + result_indices[2], dtype=dtype)  # type: ignore[arg-type]
 
         n_free = len(result_indices[0])
         n_cov = len(result_indices[1])
